@@ -132,17 +132,22 @@ def checkedSub (P : Params) (a b : List Nat) : Except Panic (Option (List Nat)) 
   | .eq => .ok (some [])
   | .gt => (subRef P a b).map some
 
+/-- the magnitude-difference arm shared by `bigint_add!` (opposite signs) and `bigint_sub!`
+    (equal signs): compare, subtract the smaller magnitude from the larger, the result takes
+    the left sign `s` if the left magnitude is larger and the opposite sign otherwise -/
+def BigInt.subMag (P : Params) (s : Sign) (ma mb : List Nat) : Except Panic BigInt :=
+  match cmpSlice ma mb with
+  | .lt => (subRef P mb ma).map (BigInt.fromBiguint s.neg)
+  | .gt => (subRef P ma mb).map (BigInt.fromBiguint s)
+  | .eq => .ok ⟨.nosign, []⟩
+
 /-- `bigint_add!` for the ref/ref form -/
 def BigInt.add (P : Params) (a b : BigInt) : Except Panic BigInt :=
   match a.sign, b.sign with
   | _, .nosign => .ok a
   | .nosign, _ => .ok b
   | .plus, .plus | .minus, .minus => .ok (BigInt.fromBiguint a.sign (addRef P a.mag b.mag))
-  | .plus, .minus | .minus, .plus =>
-    match cmpSlice a.mag b.mag with
-    | .lt => (subRef P b.mag a.mag).map (BigInt.fromBiguint b.sign)
-    | .gt => (subRef P a.mag b.mag).map (BigInt.fromBiguint a.sign)
-    | .eq => .ok ⟨.nosign, []⟩
+  | .plus, .minus | .minus, .plus => BigInt.subMag P a.sign a.mag b.mag
 
 def BigInt.neg (a : BigInt) : BigInt := ⟨a.sign.neg, a.mag⟩
 
@@ -152,10 +157,6 @@ def BigInt.sub (P : Params) (a b : BigInt) : Except Panic BigInt :=
   | _, .nosign => .ok a
   | .nosign, _ => .ok b.neg
   | .plus, .minus | .minus, .plus => .ok (BigInt.fromBiguint a.sign (addRef P a.mag b.mag))
-  | .plus, .plus | .minus, .minus =>
-    match cmpSlice a.mag b.mag with
-    | .lt => (subRef P b.mag a.mag).map (BigInt.fromBiguint a.sign.neg)
-    | .gt => (subRef P a.mag b.mag).map (BigInt.fromBiguint a.sign)
-    | .eq => .ok ⟨.nosign, []⟩
+  | .plus, .plus | .minus, .minus => BigInt.subMag P a.sign a.mag b.mag
 
 end NB
